@@ -18,9 +18,13 @@ def one_case(rng):
     e = '<' if le else '>'
     machine = 62 if cls == 64 else 3
     names = [''] + rng.sample(['puts', 'exit', 'main', 'environ', 'été', 'a' * 40, 'z'], rng.choice([1, 3, 6]))
-    strtab = b'\x00' + b''.join(n.encode() + b'\x00' for n in names[1:]) + b'libc.so.6\x00libm.so\x00/opt/lib\x00me.so\x00'
+    uniq = list(names)
+    if rng.random() < 0.5:
+        # several symbols with one name (versioned definitions foo@V1 / foo@@V2 share the st_name string)
+        names = names + [rng.choice(names[1:])] * rng.choice([1, 2])
+    strtab = b'\x00' + b''.join(n.encode() + b'\x00' for n in uniq[1:]) + b'libc.so.6\x00libm.so\x00/opt/lib\x00me.so\x00'
     stroff = {}
-    for n in names[1:] + ['libc.so.6', 'libm.so', '/opt/lib', 'me.so']:
+    for n in uniq[1:] + ['libc.so.6', 'libm.so', '/opt/lib', 'me.so']:
         stroff[n] = strtab.index(n.encode() + b'\x00')
     use_gnu = rng.random() < 0.5
     if use_gnu:
@@ -96,6 +100,19 @@ def one_case(rng):
     got_names = [s.name for s in seg.iter_symbols()]
     if got_names != order[:want_n]:
         return 'iter_symbols() names %r, encoded %r' % (got_names, order), cfg
+    # lookup by name: every symbol of that name, in table order; on a fresh object first (no name map built yet),
+    # then again after the other queries
+    fresh = next(s for s in ELFFile(io.BytesIO(image)).iter_segments() if s['p_type'] == 'PT_DYNAMIC')
+    qs = [n for n in uniq[1:]] + ['no_such_symbol']
+    rng.shuffle(qs)
+    for obj, label in ((fresh, 'fresh object'), (seg, 'after other queries'), (fresh, 'repeated')):
+        for n in qs:
+            wantv = [0x1000 + 16 * i for i, m in enumerate(order[:want_n]) if m == n and n]
+            r = obj.get_symbol_by_name(n)
+            gotv = None if r is None else [x['st_value'] for x in r]
+            if gotv != (wantv or None):
+                return 'get_symbol_by_name(%r) (%s) gives the symbols at %r, the table holds that name at %r' % (
+                    n, label, gotv and [hex(v) for v in gotv], [hex(v) for v in wantv]), cfg
     return None
 
 
